@@ -174,6 +174,7 @@ def run_graph(ctx, world, nodes, edges, start, max_redirects, follow, label):
     tmp = tempfile.mkdtemp(prefix="vf-c16-")
     marks = world.log_marks()
     verify_n = {"n": 0}
+    warm = {"n": 0, "verify": 0, "marks": None}
     orig_verify = TOFUDatabase.verify
 
     def verify(db, *a, **k):
@@ -184,6 +185,19 @@ def run_graph(ctx, world, nodes, edges, start, max_redirects, follow, label):
     try:
         async def go():
             c = GeminiClient(timeout=6, max_redirects=max_redirects, trust_on_first_use=True, tofu_db_path=Path(os.path.join(tmp, "t.db")))
+            if len(nodes) > 1 and (max_redirects + len(nodes)) % 3 == 0:
+                # the client has already been used: an earlier fetch of another node of the same graph
+                # (its own connections are excluded from the count below)
+                warm["n"] = 0
+                try:
+                    m0 = world.log_marks()
+                    await c.get(world.url(nodes[-1]), follow_redirects=False)
+                    warm["n"] = sum(b - a for a, b in zip(m0, world.log_marks()))
+                    warm["verify"] = verify_n["n"]
+                except BaseException:  # noqa: BLE001
+                    warm["n"] = sum(b - a for a, b in zip(m0, world.log_marks()))
+                    warm["verify"] = verify_n["n"]
+                warm["marks"] = world.log_marks()
             return await c.get(world.url(start), follow_redirects=follow)
 
         try:
@@ -196,6 +210,10 @@ def run_graph(ctx, world, nodes, edges, start, max_redirects, follow, label):
         shutil.rmtree(tmp, ignore_errors=True)
     for s in world.servers:
         s.wait_idle(3)
+    if warm["marks"] is not None:
+        marks = warm["marks"]
+        verify_n["n"] -= warm["verify"]
+        ctx.count("monitor", "fetches_on_a_used_client")
     conns = world.connections_since(marks)
     ctx.count("monitor", "fetches")
     ctx.count("monitor", "connections_logged", len(conns))
